@@ -193,6 +193,22 @@ def _check_sample(ctx, op, sample, src_state, tabs, exp_r, exp_c):
     if Counter(cu) != exp_c:
         ctx.violation('resample_ref.clause2', f'{op}:content:pattern',
                       f'{op}: sample holds condition uids {sorted(Counter(cu).items())}, drawn groups give {sorted(exp_c.items())}')
+    # 'index' is a descriptor like the others: the items of the sample carry the index values they have in the source
+    # (which are not the positions 0..n-1 once the source was subset, re-ordered without re-indexing or indexed by the user)
+    for axis, sd, od, seq in (('pattern', getattr(src_state, 'pattern_descriptors', {}), sample.pattern_descriptors, cu),
+                              ('rdm', getattr(src_state, 'rdm_descriptors', {}), sample.rdm_descriptors, ru)):
+        if 'index' in sd and 'uid' in sd and 'index' in od:
+            by_uid = {}
+            for u, v in zip(normlist(sd['uid']), normlist(sd['index'])):
+                by_uid.setdefault(u, v)
+            if len(set(normlist(sd['uid']))) == len(normlist(sd['uid'])):
+                exp_idx = [by_uid.get(u) for u in seq]
+                got_idx = normlist(od['index'])
+                if got_idx != exp_idx and normlist(sd['index']) != list(range(len(normlist(sd['index'])))):
+                    ctx.violation('resample_ref.clause2', f'{op}:index-descriptor:{axis}',
+                                  f'{op}: the {axis} items of the sample carry index values {got_idx}; in the source they have {exp_idx}')
+                elif got_idx == exp_idx:
+                    ctx.probe('index_descriptor_followed')
     if norm(sample.dissimilarity_measure) != norm(src_state.dissimilarity_measure):
         ctx.violation('resample_ref.clause4', f'{op}:measure', f'{op}: dissimilarity_measure changed')
     if {k: norm(v) for k, v in sample.descriptors.items()} != {k: norm(v) for k, v in src_state.descriptors.items()}:
